@@ -129,4 +129,11 @@ pub fn run(ctx: &mut Ctx) {
     ctx.assume("inputs are valid UTF-8; panics located in the back end (translate/assembly/optimizer) on accepted text are counted and belong to C03");
     ctx.prop(&crate::g::srccase::SrcProp { name: "program" });
     ctx.prop(&AnyText);
+    // thorough tier: coverage-guided byte fuzzing of compile_bytecode; everything it keeps is judged by `any_text`
+    let seeds: Vec<Vec<u8>> = corpus().iter().filter(|(_, t)| t.len() <= 1200).map(|(_, t)| t.as_bytes().to_vec()).collect();
+    let c = crate::campaign::Campaign { target: "fuzz_compile", sanitizer: "none", runs: 25_000, max_len: 1200, jobs: 12, seeds, dict: DICT.iter().map(|s| s.to_string()).collect() };
+    crate::campaign::guided(ctx, &AnyText, c, |b| {
+        let text = crate::fuzzside::text_of(b);
+        Some(TextCase { origin: "libfuzzer".into(), text, n_muts: 1 })
+    });
 }
